@@ -312,6 +312,7 @@ struct IfCfg {
     uint32_t flags = 0, iftype = 6, ipv4 = 0x0100000A, speed = 1000000; uint8_t ipv6[16] = {0};
     int wifi = 0; uint8_t wifi_mode = 1; Mac bssid = {{0x0a, 1, 2, 3, 4, 5}}; Bytes ssid; int ssid_untrunc = 0;
     uint16_t rate = 108; int8_t rssi = -60; uint32_t phy = 0; uint32_t fail = 0;
+    size_t rx_capacity = 0;   // size of the daemon's receive buffer; 0 = the MTU. A daemon that cannot learn the MTU assumes 1500 for its buffer just as the core does.
     void apply(vif *v, int id) const {
         memset(v, 0, sizeof *v);
         v->id = id; v->mtu = mtu; memcpy(v->mac, mac.b, 6); v->flags = flags; v->iftype = iftype;
@@ -391,9 +392,10 @@ struct World {
     int add_if(const IfCfg &c) {
         ifs.emplace_back(new vif);
         c.apply(ifs.back().get(), (int)ifs.size() - 1);
-        rxbuf.push_back((uint8_t *)malloc(c.mtu));   // exact MTU bytes: ASan guards byte MTU
-        rxcap.push_back(c.mtu);
-        memset(rxbuf.back(), 0, c.mtu);
+        size_t cap = c.rx_capacity ? c.rx_capacity : c.mtu;
+        rxbuf.push_back((uint8_t *)malloc(cap));   // exact MTU bytes: ASan guards byte MTU
+        rxcap.push_back(cap);
+        memset(rxbuf.back(), 0, cap);
         return (int)ifs.size() - 1;
     }
     vif *ctx(int i) { return ifs[i].get(); }
